@@ -30,7 +30,8 @@ CHECKS = {
     category='proof',
     text=('premises of the Rayleigh-Ritz upper-bound argument: kernel entries are independent of the series orders (nested trial spaces), the index map is injective and the '
           'smaller matrices are principal sub-matrices (z3, exhaustive over m<=30), K/KG/M are the exact Hessians (C02-C04), and the simply supported trial functions '
-          'vanish on the boundary (exact Bardell polynomials); the monotone upper-bound conclusion is by the cited min-max theorem.'),
+          'vanish on the boundary (exact Bardell polynomials); the ply stiffness is the tensor rotation of the plane-stress stiffness of the GIVEN constants (real read_laminaprop + '
+          'Lamina.rebuild, as in C01) and a forced-orthotropic plate is integrated without its coupling terms by every kernel; the monotone upper-bound conclusion is by the cited min-max theorem.'),
     design_ref='DESIGN.md section 4 (C15)',
     note='the conclusion itself is NOT machine-checked (cited theorem); the limit clause (convergence to the closed-form values) and solver precision are not decidable by contracts and are not claimed',
     technique='contracts on kernels (nestedness) + z3 LIA lemmas; cited spectral theorem'),
@@ -106,8 +107,9 @@ CHECKS = {
           'is symmetric and the Jacobian of k0 c + fint_NL for every rule and grid; fint_NL vanishes at c = 0 and is at least quadratic for the perfect shell.  '
           'Premises proved on the commons text: cfwx/cfwt/cfv are the state sums of the cfuvw field, cfstrain_* is E0 + EL, cfN = F eps (membrane rows).  '
           'ConeCyl._calc_NL_matrices / calc_fint compose and pass the arguments as assumed (symbolic execution, 4 model kinds); integratev hands every point to '
-          'the integrand exactly once for every thread count (z3) and both point generators return betas = 1.'),
-    design_ref='DESIGN.md section 10.6 (C17)',
+          'the integrand exactly once for every thread count (z3) and both point generators return betas = 1; the caller\'s amplitude vector is not modified (reduced and complete '
+          'vectors); the kuu block handed back by calc_kT is K[free, free] for every admissible set of prescribed amplitudes (exclude_dofs_matrix, as in C18).'),
+    design_ref='DESIGN.md section 10.6 (C17), 10.28, 10.30',
     note=('integrand level: the statement about the integrals follows because both sides use the same points and weights; floating-point summation order across '
           'threads is not modelled (A1); convergence of Newton iterations is not part of the property; 48 known findings: cffint and cfstrain_donnell of the two fsdt '
           'models use another amplitude layout than the matrices; numeric replays (kT against central differences of calc_fint) run on the installed binary'),
